@@ -1,9 +1,218 @@
-(* C09 — list commands preserve order, multiplicity and length exactly (statements only). *)
-Require Import Base.Bytes Base.GoInt Base.Reply Mem.Types Mem.Lists.
+(* C09 — list commands preserve order, multiplicity and length exactly (statements only).
+   Spec: Mem/ListsSpec.v (reference clauses over the abstract list value, key absent <-> []).
+   Model: Mem/Lists.v (executors of memdb/list.go, list_struct.go), dispatched by Mem/Exec.v.
+   Proofs: Mem/ListsProofs.v, Mem/ListsLposProofs.v, Mem/ListsLremProofs.v (executors vs clauses),
+           Mem/ListsBlock.v (blocking pops), Mem/ListsRefine.v (dispatcher, programs). *)
+Require Import Base.Bytes Base.GoInt Base.Reply Mem.Types Mem.Inv Mem.Lists Mem.Exec.
+Require Import Mem.ListsSpec Mem.ListsProofs Mem.ListsBlock Mem.ListsRefine.
 Local Open Scope Z_scope.
 
-(* LLEN reports the number of stored elements and changes nothing. *)
-Theorem C09_llen_counts : forall (d : db) (c k : bytes) (l : list bytes),
-  db_get d k = Some (VList l) -> exec_llen d [c; k] = (RInt (zlength l), d).
-Proof. intros d c k l H. unfold exec_llen, get_list. rewrite H. reflexivity. Qed.
-Print Assumptions C09_llen_counts.
+(* ---------------------------------------------------------------- one command *)
+(* Every non-blocking list executor, on every keyspace satisfying the invariants, for every
+   argument vector (all lists, indexes beyond both ends, min/max int64, counts, byte strings,
+   malformed arity, keys of other types): the clause the reference gives for that argument
+   vector accepts the reply and the change of the observable keyspace.  [step_ok] =
+   exists c, ref_clause n args = Some c /\ accepts c (raw_view d) (raw_view d') r /\ lupd d d'. *)
+Theorem C09_command_conforms : forall d now nowms n args hint r d',
+  db_wf d -> lists_ok d -> is_bpop_name n = false ->
+  lists_dispatch d now nowms n args hint = Some (r, d') ->
+  step_ok n args d r d'.
+Proof. exact lists_step. Qed.
+Print Assumptions C09_command_conforms.
+
+(* the reference clauses fix the reply (but for the documented latitude of LPOP/RPOP count 0) and
+   the resulting keyspace *)
+Theorem C09_reference_deterministic : forall c a b1 b2 r1 r2,
+  accepts c a b1 r1 -> accepts c a b2 r2 ->
+  (forall k, b1 k = b2 k) /\ (r1 = r2 \/ exists r0, c = CErrOr r0).
+Proof. exact accepts_deterministic. Qed.
+Print Assumptions C09_reference_deterministic.
+
+(* the reported length is the number of elements *)
+Theorem C09_llen_is_length : forall d c k,
+  db_wf d -> lists_ok d ->
+  match as_list (raw_view d k) with
+  | Some l => exec_llen d [c; k] = (RInt (zlength l), d)
+  | None => exec_llen d [c; k] = (err_wrongtype, d)
+  end.
+Proof. exact llen_is_length. Qed.
+Print Assumptions C09_llen_is_length.
+
+(* a WRONGTYPE reply changes nothing *)
+Theorem C09_wrongtype_changes_nothing : forall d now nowms n args hint d',
+  db_wf d -> lists_ok d -> is_bpop_name n = false ->
+  lists_dispatch d now nowms n args hint = Some (err_wrongtype, d') ->
+  forall k, raw_view d' k = raw_view d k.
+Proof. exact lists_wrongtype_changes_nothing. Qed.
+Print Assumptions C09_wrongtype_changes_nothing.
+
+(* frame: keys the command does not name keep value and deadline *)
+Theorem C09_frame : forall d now nowms n args hint r d' c,
+  db_wf d -> lists_ok d -> is_bpop_name n = false ->
+  lists_dispatch d now nowms n args hint = Some (r, d') -> ref_clause n args = Some c ->
+  forall k, ~ In k (clause_keys c) -> raw_view d' k = raw_view d k.
+Proof. exact lists_frame. Qed.
+Print Assumptions C09_frame.
+
+Theorem C09_frame_blocking : forall left d nowms args keys t r d' tend,
+  db_wf d -> lists_ok d -> bpop_parse args = Some (keys, t) ->
+  bpop_run left d nowms args = (r, d', tend) ->
+  forall k, ~ In k keys -> view d' ((nowms + 100) / 1000) k = view d ((nowms + 100) / 1000) k.
+Proof. exact bpop_frame. Qed.
+Print Assumptions C09_frame_blocking.
+
+(* ---------------------------------------------------------------- invariants (shapes of CONVENTIONS.md) *)
+Theorem C09_dispatch_wf_pres : forall d now nowms n args hint r d',
+  db_wf d -> lists_dispatch d now nowms n args hint = Some (r, d') -> db_wf d'.
+Proof. exact lists_dispatch_wf_pres. Qed.
+Print Assumptions C09_dispatch_wf_pres.
+
+Theorem C09_dispatch_reply_wf : forall d now nowms n args hint r d',
+  db_wf d -> lists_dispatch d now nowms n args hint = Some (r, d') -> reply_wf r = true.
+Proof. exact lists_dispatch_reply_wf. Qed.
+Print Assumptions C09_dispatch_reply_wf.
+
+(* the value invariant: no empty list is ever stored (an emptied list's key and deadline are gone);
+   it holds initially and every command, blocking or not, preserves it *)
+Theorem C09_inv_initial : lists_ok empty_db.
+Proof. exact lists_ok_empty. Qed.
+Print Assumptions C09_inv_initial.
+
+Theorem C09_inv_step : forall d now nowms n args hint r d',
+  db_wf d -> lists_ok d -> lists_dispatch d now nowms n args hint = Some (r, d') ->
+  db_wf d' /\ lists_ok d' /\ reply_wf r = true.
+Proof. exact lists_dispatch_inv. Qed.
+Print Assumptions C09_inv_step.
+
+(* ---------------------------------------------------------------- programs *)
+(* For all programs of list commands (through the real dispatcher [Exec.exec], expiry included),
+   from any keyspace satisfying the invariants: the model's run is a run of the reference
+   ([ref_run]: abstract keyspace, time passing by [age], each step accepted by its clause) with
+   exactly the model's replies, ending in the abstract keyspace of the model's final state; the
+   invariants hold at the end (hence, by induction, throughout). *)
+Theorem C09_refines : forall p d,
+  db_wf d -> lists_ok d -> Forall list_step p ->
+  ref_run (raw_view d) p (fst (run d p)) (raw_view (snd (run d p))) /\
+  db_wf (snd (run d p)) /\ lists_ok (snd (run d p)).
+Proof. exact list_programs_refine. Qed.
+Print Assumptions C09_refines.
+
+(* ---------------------------------------------------------------- blocking pops *)
+(* A client alone.  With the keyspace as it is at the first polling instant (100 ms after the
+   call): if a listed key of another type comes first, WRONGTYPE; if some listed key holds a
+   non-empty list, the reply is [first such key in argument order, its head (BLPOP) / tail (BRPOP)
+   element] at that instant, that element removed, an emptied list deleted, nothing else touched;
+   otherwise nil, with the clock advanced by exactly the timeout and nothing changed. *)
+Theorem C09_blocking : forall left d nowms args keys t,
+  db_wf d -> lists_ok d -> bpop_parse args = Some (keys, t) ->
+  let t1 := (nowms + 100) / 1000 in
+  match first_ready left (view d t1) keys with
+  | RdNone => bpop_run left d nowms args = (RNil, d, nowms + block_timer_ms t)
+  | _ => exists r d', bpop_run left d nowms args = (r, d', nowms + 100) /\
+                      served left keys (view d t1) (view d' t1) r /\
+                      db_wf d' /\ lists_ok d'
+  end.
+Proof. exact bpop_blocking. Qed.
+Print Assumptions C09_blocking.
+
+(* Whatever other connections do meanwhile ([evs]: any actions at any instants), a blocked pop
+   with timeout t returns no earlier than the first tick and no later than t seconds after the
+   call, and it returns nil exactly when that instant is reached.  (timeout 0: the timer is
+   math.MaxInt ns, so it returns only when a poll succeeds.) *)
+Theorem C09_blocking_bound : forall (O : Type) left keys t0 t (evs : list (Z * (db -> O * db))) d res tend evs' d' outs,
+  0 <= t ->
+  block (bpop_poll left keys) t0 t evs d = (res, tend, evs', d', outs) ->
+  t0 + 100 <= tend <= t0 + block_timer_ms t /\ (res = None <-> tend = t0 + block_timer_ms t).
+Proof. exact bpop_block_end. Qed.
+Print Assumptions C09_blocking_bound.
+
+(* Promptness: another connection acts once, at instant te, while the pop is blocked.  If nothing
+   could be popped before and the first poll after te succeeds, the pop returns at that tick:
+   after te and at most one polling period (100 ms) later. *)
+Theorem C09_blocking_prompt : forall (O : Type) left keys t0 t te (f : db -> O * db) d d' r,
+  t0 <= te ->
+  let i := (te - t0) / 100 + 1 in
+  i <= Z.pos (block_ticks t) ->
+  (forall tt, t0 < tt <= te -> bpop_poll left keys d tt = None) ->
+  bpop_poll left keys (snd (f d)) (t0 + 100 * i) = Some (r, d') ->
+  block (bpop_poll left keys) t0 t [(te, f)] d = (Some r, t0 + 100 * i, [], d', [fst (f d)])
+  /\ te < t0 + 100 * i <= te + 100.
+Proof. exact bpop_block_prompt. Qed.
+Print Assumptions C09_blocking_prompt.
+
+(* Each element goes to exactly one popper (two poppers one after the other; the concurrent
+   version is C05): a successful poll returns the end element of one listed key and removes
+   exactly it, so the second popper can never be handed the same element; together they remove
+   exactly the two elements they return. *)
+Theorem C09_two_poppers : forall left1 left2 d keys1 keys2 k1 x1 d1 k2 x2 d2,
+  bpop_try left1 d keys1 = Some (RArr [RBulk k1; RBulk x1], d1) ->
+  bpop_try left2 d1 keys2 = Some (RArr [RBulk k2; RBulk x2], d2) ->
+  elems d k1 = put_end left1 x1 (elems d1 k1) /\
+  elems d1 k2 = put_end left2 x2 (elems d2 k2) /\
+  (forall k, k <> k1 -> k <> k2 -> elems d2 k = elems d k) /\
+  (k1 = k2 -> zlength (elems d2 k1) = zlength (elems d k1) - 2) /\
+  (k1 <> k2 -> zlength (elems d2 k1) = zlength (elems d k1) - 1 /\
+               zlength (elems d2 k2) = zlength (elems d k2) - 1).
+Proof. exact two_poppers. Qed.
+Print Assumptions C09_two_poppers.
+
+(* ---------------------------------------------------------------- the reference on the documentation's examples
+   (sanity of the transcription; closed computations) *)
+Definition L (ss : list bytes) := ss.
+Example ref_lrange_doc :
+  fst (ref_lrange (-100) 100 [B "one"; B "two"; B "three"]) = RArr [RBulk (B "one"); RBulk (B "two"); RBulk (B "three")]
+  /\ fst (ref_lrange 5 10 [B "one"; B "two"; B "three"]) = RArr []
+  /\ fst (ref_lrange (-3) 2 [B "one"; B "two"; B "three"]) = RArr [RBulk (B "one"); RBulk (B "two"); RBulk (B "three")].
+Proof. repeat split; reflexivity. Qed.
+Example ref_ltrim_doc : snd (ref_ltrim 1 (-1) [B "one"; B "two"; B "three"]) = [B "two"; B "three"].
+Proof. reflexivity. Qed.
+Example ref_lrem_doc :
+  ref_lrem (-2) (B "hello") [B "hello"; B "hello"; B "foo"; B "hello"] = (RInt 2, [B "hello"; B "foo"]).
+Proof. reflexivity. Qed.
+Example ref_lpos_doc :
+  let l := [B "a"; B "b"; B "c"; B "1"; B "2"; B "3"; B "c"; B "c"] in
+  fst (ref_lpos (mkRefLpos 1 None 0) (B "c") l) = RInt 2 /\
+  fst (ref_lpos (mkRefLpos (-1) None 0) (B "c") l) = RInt 7 /\
+  fst (ref_lpos (mkRefLpos 1 (Some 2) 0) (B "c") l) = RArr [RInt 2; RInt 6] /\
+  fst (ref_lpos (mkRefLpos (-1) (Some 2) 0) (B "c") l) = RArr [RInt 7; RInt 6] /\
+  fst (ref_lpos (mkRefLpos 1 (Some 0) 0) (B "c") l) = RArr [RInt 2; RInt 6; RInt 7] /\
+  fst (ref_lpos (mkRefLpos 1 (Some 0) 3) (B "c") l) = RArr [RInt 2] /\
+  fst (ref_lpos (mkRefLpos 4 None 0) (B "c") l) = RNil.
+Proof. repeat split; reflexivity. Qed.
+Example ref_pop_doc :
+  ref_popn true 2 [B "one"; B "two"; B "three"] = (RArr [RBulk (B "one"); RBulk (B "two")], [B "three"]) /\
+  ref_popn false 2 [B "one"; B "two"; B "three"] = (RArr [RBulk (B "three"); RBulk (B "two")], [B "one"]) /\
+  ref_popn false 9 [B "one"; B "two"] = (RArr [RBulk (B "two"); RBulk (B "one")], []).
+Proof. repeat split; reflexivity. Qed.
+Example ref_push_doc :
+  snd (ref_push true [B "a"; B "b"; B "c"] []) = [B "c"; B "b"; B "a"] /\
+  snd (ref_push false [B "a"; B "b"; B "c"] [B "x"]) = [B "x"; B "a"; B "b"; B "c"].
+Proof. split; reflexivity. Qed.
+
+(* the hypotheses are satisfiable, and a run computes: RPUSH k a b c; EXPIRE is not a list
+   command, so deadlines come from the initial state here; LMOVE k k LEFT RIGHT; LRANGE k 0 -1;
+   LPOP k 3; LLEN k (the emptied list is gone) *)
+Definition demo_prog : list step :=
+  [ mkStep 10 10000 [B "rpush"; B "k"; B "a"; B "b"; B "c"] RNil
+  ; mkStep 10 10000 [B "LMOVE"; B "k"; B "k"; B "left"; B "RIGHT"] RNil
+  ; mkStep 10 10000 [B "lrange"; B "k"; B "0"; B "-1"] RNil
+  ; mkStep 11 11500 [B "blpop"; B "nokey"; B "k"; B "1"] RNil
+  ; mkStep 11 11600 [B "lpop"; B "k"; B "3"] RNil
+  ; mkStep 11 11600 [B "llen"; B "k"] RNil
+  ; mkStep 11 11600 [B "brpop"; B "k"; B "1"] RNil ].
+Example demo_is_list_prog : Forall list_step demo_prog.
+Proof. repeat constructor; discriminate. Qed.
+Example demo_run :
+  run empty_db demo_prog =
+  ([ RInt 3; RBulk (B "a"); RArr [RBulk (B "b"); RBulk (B "c"); RBulk (B "a")];
+     RArr [RBulk (B "k"); RBulk (B "b")]; RArr [RBulk (B "c"); RBulk (B "a")]; RInt 0; RNil ], empty_db).
+Proof. vm_compute. reflexivity. Qed.
+Example demo_blocking_time :
+  bpop_run false empty_db 11600 [B "brpop"; B "k"; B "1"] = (RNil, empty_db, 12600).
+Proof. vm_compute. reflexivity. Qed.
+(* promptness hypotheses are satisfiable: another connection pushes at +250 ms; served at +300 ms *)
+Example demo_prompt :
+  block (bpop_poll true [B "k"]) 20000 5
+        [(20250, fun d => exec d 20 20250 [B "rpush"; B "k"; B "x"] RNil)] empty_db
+  = (Some (RArr [RBulk (B "k"); RBulk (B "x")]), 20300, [], empty_db, [RInt 1]).
+Proof. vm_compute. reflexivity. Qed.
